@@ -19,7 +19,7 @@ EXPLANATION = (
     "rainfall_partition's returns with no redefinition in between, rainfall_partition's rain argument is the "
     "precipitation of the day's weather row, and the irrigation depth / efficiency arguments are irrigation's return and "
     "IrrMngt.AppEff. Together: Infl_col + Runoff_col = P + Irr*AppEff/100 over the reals (assumption A-2). C02.b: with "
-    "growing_season=False the irrigation term is absent. C02.e (necessary for the runoff bound): every depth <-> water-content conversion of infiltration uses the thickness of the compartment whose content the statement handles (1000*dz[k] directly, through an alias, or through a local holding the thickness in mm) - water backed up to the surface is runoff, and with another compartment's thickness more (or less) runs off than was taken out. NOT decided: non-negativity / upper bound of runoff, sign of "
+    "growing_season=False the irrigation term is absent. C02.e (necessary for the runoff bound): every depth <-> water-content conversion of infiltration uses the thickness of the compartment whose content the statement handles (1000*dz[k] directly, through an alias, or through a local holding the thickness in mm) - water backed up to the surface is runoff, and with another compartment's thickness more (or less) runs off than was taken out. C02.f (= C03.b): every store to the ponding depth - initial conditions, season reset, infiltration, evaporation, transpiration - is the literal 0, under a test of the bund switch, or a guarded decrease: without bunds nothing is ponded, so no ponded water is released as runoff / negative infiltration on a day without bund removal. NOT decided: non-negativity / upper bound of runoff, sign of "
     "infiltration on bund removal, zero-in => zero-out (numeric).")
 
 
@@ -305,6 +305,11 @@ def run(chk, prog, tier):
                 pass
     # ---- C02.c surface-water bookkeeping templates inside infiltration
     surface_bookkeeping(chk, prog, inf, step, c_inf, rp_pos, names_rp)
+    # ---- C02.f = C03.b: without bunds nothing is ever ponded (every store to the ponding depth is the literal 0, under a test of the bund switch, or a
+    # guarded decrease) - the premise of "negative infiltration only on the day bunds are removed" and of "nothing ponded => zero out"
+    from .c03 import rule_b as ponding_without_bunds
+    from ._alias import Alias
+    ponding_without_bunds(Alias(chk, "C03.b", "C02.f"), prog)
     # ---- C02.e thickness agreement inside infiltration (T-THICK, shared with C01.f): the water backed up to the surface becomes runoff; it
     # is the water actually taken out of a compartment only if the content difference is converted with that compartment's own thickness
     from . import _thick
